@@ -52,3 +52,12 @@ Definition expl_case_s (site : nat) (es : list edesc) : option (bool * bool) :=
   | Some s => option_map xfacts (xsite_s s es)
   | None => None
   end.
+
+(* [func.wrap.func.con]: function() / function(nullptr_t) / template<class F> function(F&&) (Constraints: F callable for the
+   signature) are not explicit, [func.wrap.func.cap] `explicit operator bool`; [refwrap.const] reference_wrapper(U&&) is not
+   explicit and participates when FUN(declval<U>()) is well-formed, [refwrap.access] `operator T&` is not explicit; P0792
+   [func.wrap.ref.ctor] function_ref(F* f), function_ref(F&&) are not explicit.  Same order as ModelExpl.wrapper_ctors_m *)
+Definition wrapper_ctors_spec : list verdict :=
+  [VImplicit; VImplicit; VImplicit; VImplicit; VNone; VImplicit; VExplicit; VExplicit;
+   VImplicit; VNone; VNone; VImplicit; VImplicit; VImplicit; VNone; VImplicit; VImplicit; VNone].
+Definition wrapper_ctors_etl_spec : list verdict := [VImplicit; VImplicit; VImplicit; VImplicit; VImplicit; VImplicit].
